@@ -1017,7 +1017,9 @@ impl Tuple {
 
         // Write header
         let original_xmin = self.xmin();
-        let header = TupleHeader::new(old_version + 1, original_xmin, None);
+        // The version number is a one-byte label: it wraps. Visibility never goes by it (it goes
+        // by creator ids); a row may be updated more than 255 times between two vacuums.
+        let header = TupleHeader::new(old_version.wrapping_add(1), original_xmin, None);
         cursor = header.write_to(buffer, cursor);
 
         // Write null bitmap for new values
